@@ -116,6 +116,24 @@ def KeyOrder (rnd : Rat → Rat) (p : Params) (cells : List LCell) : Prop :=
     (cellAt cells i).tx + (cellAt cells i).w ≤ (cellAt cells j).tx →
     keyLt (orderKey rnd p.ow p.oy p.oh (cellAt cells i), i) (orderKey rnd p.ow p.oy p.oh (cellAt cells j), j) = true
 
+/-- both cells lie inside the free segment `r` -/
+def SameSeg (r : Row) (a b : LCell) : Prop :=
+  r.rect.minY = a.ty ∧ r.rect.minX ≤ a.tx ∧ a.tx + a.w ≤ r.rect.maxX ∧ r.rect.minX ≤ b.tx ∧ b.tx + b.w ≤ r.rect.maxX
+
+/-- the weaker form that is enough: only pairs of cells lying in one and the same free segment of `R`
+have to be visited left to right (the order between cells of different segments is irrelevant) -/
+def KeyOrderSeg (rnd : Rat → Rat) (p : Params) (R : List Row) (cells : List LCell) : Prop :=
+  ∀ i j, i < cells.length → j < cells.length →
+    (cellAt cells i).ty = (cellAt cells j).ty → (cellAt cells i).h = (cellAt cells j).h →
+    0 < (cellAt cells i).w → 0 < (cellAt cells j).w →
+    (cellAt cells i).tx + (cellAt cells i).w ≤ (cellAt cells j).tx →
+    (∃ r ∈ R, SameSeg r (cellAt cells i) (cellAt cells j)) →
+    keyLt (orderKey rnd p.ow p.oy p.oh (cellAt cells i), i) (orderKey rnd p.ow p.oy p.oh (cellAt cells j), j) = true
+
+theorem KeyOrder.toSeg {rnd : Rat → Rat} {p : Params} {cells : List LCell} (h : KeyOrder rnd p cells) (R : List Row) :
+    KeyOrderSeg rnd p R cells :=
+  fun i j hi hj hy hh hw1 hw2 hx _ => h i j hi hj hy hh hw1 hw2 hx
+
 theorem keyOrder_exact (p : Params) (h0 : 0 ≤ p.ow) (h1 : p.ow ≤ 1) (cells : List LCell) : KeyOrder id p cells := by
   intro i j _ _ hy hh hw1 hw2 hx
   have := orderKey_lt_exact p.ow p.oy p.oh h0 h1 _ _ hy hh hw1 hw2 hx
@@ -143,7 +161,7 @@ theorem getOrientation_fixed (S : List Row) (c : LCell) (k : Nat)
 
 theorem idemOK_of (rnd : Rat → Rat) (p : Params) (R : List Row) (H : Int) (cells : List LCell)
     (hgood : ∀ r ∈ R, GoodSeg H r) (hdisj : R.Pairwise RowsDisj) (hcells : ∀ c ∈ cells, CellInPlace R H c)
-    (hnoov : cells.Pairwise NoOverlap) (hkey : KeyOrder rnd p cells) :
+    (hnoov : cells.Pairwise NoOverlap) (hkey : KeyOrderSeg rnd p R cells) :
     IdemOK (sortRows (sortRows R)) H
       ((computeCellOrder rnd p.ow p.oy p.oh cells).map (cellAt cells)) := by
   have hperm : (sortRows (sortRows R)).Perm R := (sortRows_perm _).trans (sortRows_perm R)
@@ -187,14 +205,17 @@ theorem idemOK_of (rnd : Rat → Rat) (p : Params) (R : List Row) (H : Int) (cel
       have := hxy e.symm
       omega
     refine List.Pairwise.imp_of_mem ?_ (hA.and hB)
-    intro i j hi hj hab hy
+    intro i j hi hj hab k hk hsi hsj
+    have hy : (cellAt cells i).ty = (cellAt cells j).ty := by rw [← hsi.1, ← hsj.1]
     rcases hab.2 hy with h | h
     · exact h
     · have li := hlt i hi
       have lj := hlt j hj
       obtain ⟨ai, wi, _⟩ := hcells _ (cellAt_mem cells i li)
       obtain ⟨aj, wj, _⟩ := hcells _ (cellAt_mem cells j lj)
-      exact absurd (hkey j i lj li hy.symm (by rw [ai, aj]) wj wi h) hab.1
+      have hr : rowAt (sortRows (sortRows R)) k ∈ R := hperm.mem_iff.mp (rowAt_mem _ k hk)
+      exact absurd (hkey j i lj li hy.symm (by rw [ai, aj]) wj wi h
+        ⟨_, hr, hsj.1, hsj.2.1, hsj.2.2.1, hsi.2.1, hsi.2.2.1⟩) hab.1
 
 theorem posAt_init_placed (cells : List LCell) (j : Nat) (hj : j < cells.length) :
     (posAt (cells.map initPos) j).placed = false := by
@@ -203,7 +224,7 @@ theorem posAt_init_placed (cells : List LCell) (j : Nat) (hj : j < cells.length)
 /-- **`Legalizer::run` on an already legal single-row input** leaves every cell where it is. -/
 theorem run_fixed (rnd : Rat → Rat) (p : Params) (R : List Row) (H : Int) (cells : List LCell)
     (hgood : ∀ r ∈ R, GoodSeg H r) (hdisj : R.Pairwise RowsDisj) (hcells : ∀ c ∈ cells, CellInPlace R H c)
-    (hnoov : cells.Pairwise NoOverlap) (hkey : KeyOrder rnd p cells) :
+    (hnoov : cells.Pairwise NoOverlap) (hkey : KeyOrderSeg rnd p R cells) :
     run rnd p (Base.mk' R cells) = .ok ⟨sortRows R, cells, cells.map finalPos⟩ := by
   have hperm1 : (sortRows R).Perm R := sortRows_perm R
   have hord := computeCellOrder_perm rnd p.ow p.oy p.oh cells
